@@ -4,6 +4,7 @@ import (
 	"encoding/binary"
 	"fmt"
 	"io"
+	"strconv"
 
 	"github.com/dustin/go-humanize/english"
 	"github.com/hashicorp/raft"
@@ -65,10 +66,12 @@ func (s *Server) Apply(l *raft.Log) interface{} {
 	// stream being deleted, recreated, and then published to. When recovery
 	// completes, we'll call finishedRecovery() to start the recovered streams
 	// and delete any tombstoned streams.
+	s.recoveryMu.Lock()
 	if !s.recoveryStarted {
 		lastCommittedLog, err := s.recoverLatestCommittedFSMLog(l.Index)
 		// If this returns an error, something is very wrong.
 		if err != nil {
+			s.recoveryMu.Unlock()
 			panic(err)
 		}
 		s.latestRecoveredLog = lastCommittedLog
@@ -76,8 +79,14 @@ func (s *Server) Apply(l *raft.Log) interface{} {
 		if s.latestRecoveredLog != nil {
 			s.logger.Debug("fsm: Replaying Raft log...")
 			s.startedRecovery()
+		} else if err := s.startRestored(l.Index); err != nil {
+			// Nothing is replayed, so nothing else would start the streams
+			// and groups a snapshot restored.
+			s.recoveryMu.Unlock()
+			panic(err)
 		}
 	}
+	s.recoveryMu.Unlock()
 
 	// Check if this is a "recovered" Raft entry, meaning we are still applying
 	// logs up to and including the latest recovered log.
@@ -295,6 +304,14 @@ func (s *Server) finishedRecovery(epoch uint64) (int, int, error) {
 		// output.
 		s.logger.Silent(false)
 	}
+	return s.startRecovered(epoch)
+}
+
+// startRecovered starts the stream partitions and consumer groups that are in
+// recovery mode and deletes any tombstoned streams. It returns the number of
+// streams which had partitions that were started and the number of consumer
+// groups that were started.
+func (s *Server) startRecovered(epoch uint64) (int, int, error) {
 	recoveredStreams := make(map[string]struct{})
 	for _, stream := range s.metadata.GetStreams() {
 		if stream.IsTombstoned() {
@@ -320,6 +337,54 @@ func (s *Server) finishedRecovery(epoch uint64) (int, int, error) {
 		}
 	}
 	return len(recoveredStreams), recoveredGroups, nil
+}
+
+// startRestored starts the streams and consumer groups a snapshot restored
+// when no replay of the log will do it. It must be called with the recoveryMu
+// held.
+func (s *Server) startRestored(epoch uint64) error {
+	if s.isShutdown() {
+		return nil
+	}
+	_, _, err := s.startRecovered(epoch)
+	if err != nil && s.isShutdown() {
+		s.logger.Errorf("fsm: Failed to start streams restored from snapshot: %v", err)
+		return nil
+	}
+	return err
+}
+
+// startRestoredWithoutReplay is called once on startup. Streams and consumer
+// groups restored from a snapshot are started when the replay of the
+// operations behind the snapshot finishes. If the log holds no operation
+// behind the snapshot, there is no replay and they are started here.
+func (s *Server) startRestoredWithoutReplay(raftNode *raftNode) error {
+	s.recoveryMu.Lock()
+	defer s.recoveryMu.Unlock()
+	if s.recoveryStarted {
+		// Operations are being applied already, Apply takes care of it.
+		return nil
+	}
+	snapshotIndex, err := strconv.ParseUint(raftNode.Stats()["last_snapshot_index"], 10, 64)
+	if err != nil || snapshotIndex == 0 {
+		// Nothing was restored.
+		return nil
+	}
+	lastIndex, err := raftNode.store.LastIndex()
+	if err != nil {
+		return err
+	}
+	log := &raft.Log{}
+	for i := snapshotIndex + 1; i <= lastIndex; i++ {
+		if err := raftNode.store.GetLog(i, log); err != nil {
+			return err
+		}
+		if log.Type == raft.LogCommand {
+			// This will be replayed.
+			return nil
+		}
+	}
+	return s.startRestored(snapshotIndex)
 }
 
 // fsmSnapshot is returned by an FSM in response to a Snapshot. It must be safe
@@ -467,6 +532,14 @@ func (s *Server) Restore(snapshot io.ReadCloser) error {
 	}
 	s.logger.Debugf("fsm: Finished restoring Raft state from snapshot, recovered %s",
 		english.Plural(len(snap.Streams), "stream", ""))
+
+	// A snapshot installed on a running server is not followed by a replay,
+	// so start what it restored.
+	s.recoveryMu.Lock()
+	defer s.recoveryMu.Unlock()
+	if s.recoveryStarted && s.latestRecoveredLog == nil {
+		return s.startRestored(0)
+	}
 	return nil
 }
 
